@@ -55,10 +55,84 @@ let gen_ir args =
     outcome_to_sx str_to_atom (generate lang cfg pd)
   | _ -> raise (Bad "gen_ir args")
 
-let () = register "gen_src" gen_src; register "gen_ir" gen_ir
+(* ---- abstract declarations (Model/Lang/Decl.v) ---- *)
+let rec of_texp (x : Model.texp) : sx =
+  match x with
+  | Model.XName (n, args) -> L [A "name"; str_to_atom n; of_list of_texp args]
+  | Model.XSeq e -> L [A "seq"; of_texp e]
+  | Model.XFixed es -> L [A "fixed"; of_list of_texp es]
+  | Model.XMap (k, v) -> L [A "map"; of_texp k; of_texp v]
+  | Model.XOpt e -> L [A "opt"; of_texp e]
+  | Model.XRaw t -> L [A "raw"; str_to_atom t]
+
+let of_binding = function
+  | Model.BName -> A "name" | Model.BQuoted -> A "quoted" | Model.BSerialName -> A "serial_name"
+  | Model.BCodingKey -> A "coding_key" | Model.BJsonTag -> A "json_tag" | Model.BAlias -> A "alias"
+
+let of_member (m : Model.member) : sx =
+  L [A "member"; str_to_atom m.Model.mb_name; of_bool m.Model.mb_escaped; str_to_atom m.Model.mb_key; of_binding m.Model.mb_binding;
+     of_bool m.Model.mb_optional; of_texp m.Model.mb_type; of_list str_to_atom m.Model.mb_docs]
+
+let of_payload = function
+  | Model.PayUnit -> A "unit"
+  | Model.PayNewtype (t, o) -> L [A "newtype"; of_texp t; of_bool o]
+  | Model.PayInline ms -> L [A "inline"; of_list of_member ms]
+  | Model.PayRef (inner, args) -> L [A "ref"; str_to_atom inner; of_list str_to_atom args]
+
+let of_variantd (v : Model.variantd) : sx =
+  L [A "variant"; str_to_atom v.Model.vd_name; str_to_atom v.Model.vd_wire; of_payload v.Model.vd_payload;
+     of_opt str_to_atom v.Model.vd_parent; of_list str_to_atom v.Model.vd_docs]
+
+let of_defkind = function
+  | Model.DStruct -> A "struct" | Model.DEnum -> A "enum" | Model.DAlias -> A "alias" | Model.DConst -> A "const" | Model.DHelper -> A "helper"
+
+let of_decl (d : Model.decl) : sx =
+  L [A "decl"; of_defkind d.Model.d_kind; str_to_atom d.Model.d_name; of_bool d.Model.d_escaped; of_list str_to_atom d.Model.d_generics;
+     of_list str_to_atom d.Model.d_docs; of_list of_member d.Model.d_members; of_list of_variantd d.Model.d_variants;
+     of_list str_to_atom d.Model.d_tag_keys; of_list str_to_atom d.Model.d_content_keys; of_opt of_texp d.Model.d_type;
+     of_opt str_to_atom d.Model.d_value]
+
+let of_file_decls (f : Model.file_decls) : sx =
+  L [A "file"; of_list str_to_atom f.Model.fd_header; of_list str_to_atom f.Model.fd_imports; of_list of_decl f.Model.fd_decls;
+     of_list str_to_atom f.Model.fd_helper_defs]
+
+let decl_backends : (string, sx -> Model.parsed -> Model.file_decls Model.outcome) Hashtbl.t = Hashtbl.create 8
+let register_decls name f = Hashtbl.replace decl_backends name f
+let decls_of lang cfg pd =
+  match Hashtbl.find_opt decl_backends lang with
+  | Some f -> f cfg pd
+  | None -> raise (Bad ("no declaration model for back end " ^ lang))
+
+(* (decls_src LANG CFG FILE TSTRS T) / (decls_ir LANG CFG ITEMS RECONCILE): like gen_src / gen_ir but
+   returning the abstract declarations instead of the text *)
+let decls_src args =
+  match args with
+  | [A lang; cfg; file; tstrs; t] ->
+    (match Model.parse_file uc (to_tstr tstrs) (to_list to_str t) (to_file file) with
+     | Model.Ok None -> L [A "none"]
+     | Model.Ok (Some pd) ->
+       if pd.Model.p_errors <> [] then L [A "parse_errors"; of_list perr_to_sx pd.Model.p_errors]
+       else outcome_to_sx of_file_decls (decls_of lang cfg (reconcile_single pd))
+     | Model.Err e -> L [A "parse_err"; perr_to_sx e]
+     | Model.Panic s -> L [A "panic"; A (coqstring s)])
+  | _ -> raise (Bad "decls_src args")
+
+let decls_ir args =
+  match args with
+  | [A lang; cfg; items; recon] ->
+    let pd = to_parsed_items items in
+    let pd = if to_bool recon then reconcile_single pd else pd in
+    outcome_to_sx of_file_decls (decls_of lang cfg pd)
+  | _ -> raise (Bad "decls_ir args")
+
+let () = register "gen_src" gen_src; register "gen_ir" gen_ir; register "decls_src" decls_src; register "decls_ir" decls_ir
 
 (* ---- TypeScript ---- *)
 let () = register_backend "typescript" (fun cfg pd ->
   let c = { Model.ts_type_mappings = cfg_map cfg "type_mappings"; Model.ts_no_version_header = cfg_bool cfg "no_version_header" true;
             Model.ts_version = cfg_str cfg "version" } in
   Model.ts_generate uc c pd)
+let () = register_decls "typescript" (fun cfg pd ->
+  let c = { Model.ts_type_mappings = cfg_map cfg "type_mappings"; Model.ts_no_version_header = cfg_bool cfg "no_version_header" true;
+            Model.ts_version = cfg_str cfg "version" } in
+  Model.ts_file_decls uc c pd)
